@@ -239,7 +239,7 @@ def _compare(a, b, rtol, atol):
     return None
 
 
-def _check(entry, rep):
+def _check(entry, rep, twin=False):
     import astropy.units as u
     from astropy.nddata import NDData, StdDevUncertainty
     E = _entries()
@@ -251,6 +251,8 @@ def _check(entry, rep):
     with warnings.catch_warnings():
         warnings.simplefilter('ignore')
         base, _ = fn(img.copy(), err.copy(), None)
+        if twin:
+            base = {k: v * 1.01 for k, v in base.items()}   # perturbed
         if rep == 'mixed-units':
             if not takes_q:
                 return None
@@ -309,7 +311,7 @@ def _run_entry(case):
         rep = ctx.choice('repr', REPRS)
         ctx.stats.obligations += 1
         cnt['n'] += 1
-        msg = _check(entry, rep)
+        msg = _check(entry, rep, twin=bool(case.get('twin')))
         if msg is None:
             ctx.stats.unsat += 1
         else:
@@ -438,6 +440,8 @@ def run_case(case):
 
 def cases(tier, seed):
     cs = [dict(kind='entry', name=f'repr-{e}', entry=e) for e in _entries()]
+    cs.append(dict(kind='entry', name='repr-twin', entry='aperture_photometry',
+                   twin=True))
     cs.append(dict(kind='pq', name='process_quantities'))
     cs.append(dict(kind='symlayout', name='symbolic-layout'))
     return cs
